@@ -10,4 +10,11 @@ import Refine.Model.ContainersSort
 import Refine.Model.Containers
 import Refine.Model.ContainersAdj
 import Refine.Lemmas.ScalarReal
+import Refine.Lemmas.ContainersSort
+import Refine.Lemmas.ContainersHeap
+import Refine.Lemmas.ContainersSortDbl
+import Refine.Lemmas.ContainersListDict
+import Refine.Lemmas.ContainersAdj
+import Refine.Lemmas.ContainersAdjSeq
 import Refine.Props.C15
+import Refine.Props.C14
